@@ -15,6 +15,16 @@ BIG_RATES = [(10 ** 11, 1001), (20000000123, 1000), (12345678901, 10)]
 FCS = [1, 3, 60, 3600]
 SCS = [3600, 86400]
 PREFIX = "metadata"
+# the file-name prefix is the caller's choice: anything without '/' and '@' (a '%' must stay a '%')
+PREFIXES = ["metadata", "metadata", "duty50%%", "m%s_d", "pre fix", "x.y-z"]
+
+
+def set_prefix(p):
+    """the prefix every helper of this module (and of c12 / c20, which read c13.PREFIX) uses from now on"""
+    global PREFIX
+    PREFIX = p
+
+
 WITNESS = {"n": 10 ** 8, "d": 7, "fc": 3, "sc": 3600, "k": 21428571600000000}
 
 
@@ -101,6 +111,7 @@ def run_config(res, n, d, fc, sc, ks, queries, stats):
     nf = common.number_form
     forms = [nf(rng, sc), nf(rng, fc), nf(rng, n), nf(rng, d)]
     arg_types = [type(x).__name__ for x in forms]      # how (subdir cadence, file cadence, numerator, denominator) are passed
+    set_prefix(rng.choice(PREFIXES))
     w = digital_rf.DigitalMetadataWriter(common.path_form(top), forms[0], forms[1], forms[2], forms[3], PREFIX)
     i = 0
     while i < len(ks):
@@ -116,7 +127,7 @@ def run_config(res, n, d, fc, sc, ks, queries, stats):
     where, files = walk_samples(top)
     fileset = set(files)
     rd = digital_rf.DigitalMetadataReader(common.path_form(top))
-    cfgi = {"n": n, "d": d, "fc": fc, "sc": sc, "arg_types": arg_types}
+    cfgi = {"n": n, "d": d, "fc": fc, "sc": sc, "arg_types": arg_types, "prefix": PREFIX}
     # ---- model (both variants) for every written sample
     mE = model_paths(0, n, d, fc, sc, ks)
     mL = model_paths(1, n, d, fc, sc, ks)
@@ -477,7 +488,8 @@ def replay(res, rp):
         return 1 if bad else 0
     at = i.get("arg_types") or ["int"] * 4
     F = common.number_from_form
-    print("subdir cadence, file cadence, numerator, denominator passed as", at)
+    set_prefix(i.get("prefix") or "metadata")
+    print("subdir cadence, file cadence, numerator, denominator passed as", at, "; file name prefix", repr(PREFIX))
     w = digital_rf.DigitalMetadataWriter(top, F(at[0], sc), F(at[1], fc), F(at[2], n), F(at[3], d), PREFIX)
     ks = sorted(set([k] + list(i.get("others", [])) + list(i.get("written", []))))
     for x in ks:
